@@ -31,9 +31,7 @@ def run(ctx):
     open(cfg2, "w").write("SPECIFICATION Spec\nCONSTANTS\n  Values <- MCValuesWide\n  MaxAdds = 3\nINVARIANT Export\n")
     r = vlib.run_tlc(ctx, os.path.join(SPEC, "ConstPoolMC.tla"), cfg2, workers=8, timeout=600, tag="beh3")
     vlib.tlc_must_ok(ctx, r, "behaviour export depth 3")
-    for ln in r.out.splitlines():
-        if ln.startswith('<<"BEH"'):
-            scripts.append(tla_seq_to_list(ln)[1])
+    scripts += vlib.parse_beh(r.out)
     nsim = 300 if q else 5000
     cfg3 = ctx.path("sim.cfg")
     open(cfg3, "w").write("SPECIFICATION Spec\nCONSTANTS\n  Values <- MCValuesWide\n  MaxAdds = 14\nINVARIANT Export\n")
@@ -41,25 +39,18 @@ def run(ctx):
                      simulate=nsim // 4, depth=15, seed=ctx.seed)
     if r.kind not in ("ok",):
         raise Broken("simulation export failed: " + r.out[-800:])
-    for ln in r.out.splitlines():
-        if ln.startswith('<<"BEH"'):
-            scripts.append(tla_seq_to_list(ln)[1])
+    scripts += vlib.parse_beh(r.out)
     uniq = {json.dumps(s) for s in scripts}
     scripts = [json.loads(s) for s in sorted(uniq)]
     ctx.log(f"{len(scripts)} distinct model behaviours exported for replay")
     sp = ctx.path("scripts.ndjson")
     vlib.write_ndjson(sp, [{"ops": s} for s in scripts])
     tr = ctx.path("trace_scripts.ndjson")
-    rc, _, err = vlib.run_harness(ctx, bdir, "constpool", ["script", sp, tr], timeout=600)
-    if rc != 0:
-        ctx.log("harness (script) exit", rc, err[-2000:])
+    vlib.record_trace(ctx, bdir, "constpool", ["script", sp, tr], tr, timeout=600)
     # 3. long random histories
     tr2 = ctx.path("trace_random.ndjson")
     nexec, steps = (150, 60) if q else (1500, 120)
-    rc2, _, err2 = vlib.run_harness(ctx, bdir, "constpool", ["random", tr2, nexec, steps], timeout=900,
-                                    env={"VERIF_SEED": ctx.seed})
-    if rc2 != 0:
-        ctx.log("harness (random) exit", rc2, err2[-2000:])
+    vlib.record_trace(ctx, bdir, "constpool", ["random", tr2, nexec, steps], tr2, timeout=900, env={"VERIF_SEED": ctx.seed})
     # 4. trace validation
     mod, tcfg = os.path.join(SPEC, "ConstPoolTrace.tla"), os.path.join(SPEC, "ConstPoolTrace.cfg")
     nrec = 0
